@@ -63,6 +63,8 @@ const struct bufferevent_ops bufferevent_ops_filter = { "filter-not-linked", 0, 
 #define REV_REFUSED       25   /* read event; ECONNREFUSED (the FreeBSD case in bufferevent_readcb) */
 #define REV_TIMEOUT       26
 #define TRIGGER_RW        27   /* bufferevent_trigger(EV_READ|EV_WRITE, 0) */
+#define DISABLE_W         28
+#define ENABLE_W          29
 
 #ifndef C19_SEQ
 #define C19_SEQ CONNECT_INPROGRESS, WEV_CONNECTED, REV_DATA
@@ -178,6 +180,8 @@ static void do_op(int op)
 	case SETCB_NULL: if (!u_dead[B]) app_clear(); break;
 	case FREE: if (!u_dead[B]) app_free(); break;
 	case DISABLE_R: if (!u_dead[B]) bufferevent_disable(b, EV_READ); break;
+	case DISABLE_W: if (!u_dead[B]) bufferevent_disable(b, EV_WRITE); break;
+	case ENABLE_W: if (!u_dead[B]) bufferevent_enable(b, EV_WRITE); break;
 	case ENABLE_R: if (!u_dead[B]) { bufferevent_enable(b, EV_READ); g_rd_ended = 0; } break;
 	case APP_WRITE:
 		if (!u_dead[B]) { size_t m = vp_size(); __CPROVER_assume(m >= 1 && m <= (size_t)EV_SSIZE_MAX / 4); bufferevent_write(b, NULL, m); }
@@ -246,8 +250,12 @@ void harness_lifecycle(void)
 #ifdef C19_EXPECT_LOG
 	{
 		/* the exact callback sequence the scenario must produce: pairs (kind, event flags) */
-		static const int want[] = { C19_EXPECT_LOG };
-		unsigned n = sizeof(want) / sizeof(want[0]) / 2, k;
+		static const int want[] = { C19_EXPECT_LOG, 0 };
+#ifdef C19_EXPECT_EMPTY
+		unsigned n = 0, k;
+#else
+		unsigned n = (sizeof(want) / sizeof(want[0]) - 1) / 2, k;
+#endif
 		VP_ASSERT((unsigned)u_nlog == n, "C19: number of callbacks differs from the scenario's expectation");
 		for (k = 0; k < n && k < U_NLOG; k++)
 			VP_ASSERT(u_log[k].kind == want[2 * k] && u_log[k].what == (short)want[2 * k + 1], "C19: callback order/flags differ from the order in which the conditions arose");
